@@ -53,6 +53,17 @@ theorem reinitLit_eq (H : String → UInt64) (t : T) : reinitLit H t = reinit H 
     the order of the wrap-around additions is immaterial. -/
 theorem reinitLit2_eq (H : String → UInt64) (t : T) : reinitLit2 H t = reinit H t := reinitLit2_eq_reinit H t
 
+/-- `reinitLit3` — what the driver runs: `UpdateTipIndex` entering the sorted names one by one (a name already
+    entered is the error), then `ClearBitSets` / `UpdateBitSet` / `ComputeEdgeHashes` statement by statement,
+    nothing taken from the summarised `reinit` — is `reinit`, for every tree and every `H`. -/
+theorem reinitLit3_eq (H : String → UInt64) (t : T) : reinitLit3 H t = reinit H t := reinitLit3_eq_reinit H t
+
+/-- `ReinitInternalIndexes` with the tip index left by an earlier `UpdateTipIndex` gives the indexes of
+    `ReinitIndexes` as long as the tip names have not changed since (the index is still the sorted names). -/
+theorem reinitInternal_eq (H : String → UInt64) (t : T) (hn : t.tipNames.Nodup) :
+    reinitInternalLit H (sortNames t.tipNames) t = reinit H t :=
+  reinitInternalLit_eq_reinit H t ((sortNames_perm _).nodup_iff.mpr hn)
+
 /-- the literal `UpdateBitSet` alone: one bitset per branch, bit `rank x` set iff `x` is below -/
 theorem updateBitSet_correct (rank : String → Nat) (n : Nat) (t : T) :
     updateBitSet rank n t.kids = t.splits.map fun s => mkBits n (s.below.map rank) :=
@@ -153,7 +164,10 @@ theorem hashCode_split_invariant (H : String → UInt64) (t₁ t₂ : T)
 example : sameSplit exT.tipNames (exT.splits[0]).below (exTipRoot.splits[1]).below = true := by decide
 example : sameSplit exT.tipNames (exT.splits[3]).below (exTipRoot.splits[1]).below = true := by decide
 
-/-- Re-rooting, unrooting and rotating (the models of C05, tied to `Reroot`, `UnRoot`,
+/-- (A corollary of `hashCode_split_invariant`, nothing more: the edit hypothesis is used only to know that
+    the tips are the same.  It is not evidence for "after any edit" — `reinit` is a function of the tree
+    alone, every field being overwritten before it is read; stale state is a matter for the oracle.)
+    Re-rooting, unrooting and rotating (the models of C05, tied to `Reroot`, `UnRoot`,
     `RotateInternalNodes` there) keep the hash code of every split: a branch of the edited tree and a
     branch of the original that define the same split have the same `HashCode`, are `HashEquals` and
     `SameBipartition` after `ReinitIndexes` on both. -/
@@ -421,6 +435,62 @@ theorem hashmap_on_trees {ν : Type} (H : String → UInt64) (tips : List String
     exact (spec_equals_iff_sameSplit H ⟨hn, hn, List.Perm.refl _, b.2, b'.2⟩).symm
   rw [hE]
   exact hm_refines (edge_keys_lawful H tips hn) cap policy ops
+
+/-- Keys coming from SEVERAL trees on the same taxa (each with its own tip order — rotated, re-rooted or
+    different trees): the index records of all their branches form a lawful key set — `HashEquals` is
+    "same split of `tips`" and compatible with `HashCode`. -/
+theorem tree_keys_lawful (H : String → UInt64) (tips : List String) (hn : tips.Nodup) :
+    KeyLaws (κ := TreeKey tips) (fun k => (k.idx H).hashCode) (fun k k' => (k.idx H).equals (k'.idx H)) := by
+  refine ⟨?_, ?_, ?_, ?_⟩
+  · intro a; rw [TreeKey.equals_eq H hn]; exact sameSplit_refl _ _
+  · intro a b h
+    rw [TreeKey.equals_eq H hn] at h ⊢; exact sameSplit_symm h
+  · intro a b c h1 h2
+    rw [TreeKey.equals_eq H hn] at h1 h2 ⊢; exact sameSplit_trans h1 h2
+  · intro a b h
+    have hs : sameSplit a.order a.below b.below = true := by
+      rw [sameSplit_perm a.perm]; rw [TreeKey.equals_eq H hn] at h; exact h
+    exact spec_hashCode_of_sameSplit H (TreeKey.sides hn a b) hs
+
+/-- every branch of every tree on the taxa is such a key, and its record after `ReinitIndexes` is the key's -/
+theorem branch_is_treeKey (H : String → UInt64) (tips : List String) (t : T) (hn : t.tipNames.Nodup)
+    (hp : t.tipNames.Perm tips) (i : Nat) (hi : i < t.splits.length) :
+    ∃ k : TreeKey tips, k.order = t.tipNames ∧ k.below = (t.splits[i]).below ∧ indexOf H t i = some (k.idx H) :=
+  ⟨⟨t.tipNames, (t.splits[i]).below, hp, below_sublist t _ (List.getElem_mem hi)⟩, rfl, rfl, indexOf_eq H t hn i hi⟩
+
+/-- `tree.EdgeIndex` over the branches of any number of trees on the same uniquely named taxa (what the
+    consensus, the supports and the driver's `several-trees` scripts do): every script answers like a plain
+    map keyed by the split of `tips`, for every capacity and rehash policy. -/
+theorem edgeIndex_across_trees (H : String → UInt64) (tips : List String) (hn : tips.Nodup)
+    (cap : Nat) (policy : Nat → Nat → Bool) (ops : List (EIOp (TreeKey tips))) :
+    EI.run EdgeIdx.hashCode EdgeIdx.equals policy (ops.map (EIOp.mapKey fun k => k.idx H)) (HM.new cap) =
+      Assoc.runEI (fun k k' => sameSplit tips k.below k'.below) ops [] := by
+  rw [← new_map (fun (k : TreeKey tips) => k.idx H), ei_run_map]
+  rw [ei_refines (tree_keys_lawful H tips hn)]
+  congr 1
+  funext a b
+  exact TreeKey.equals_eq H hn a b
+
+/-- the same for `hashmap.HashMap` scripts (`PutValue` / `Value` / `KeyValues` / `Keys`) -/
+theorem hashmap_across_trees {ν : Type} (H : String → UInt64) (tips : List String) (hn : tips.Nodup)
+    (cap : Nat) (policy : Nat → Nat → Bool) (ops : List (HMOp (TreeKey tips) ν)) :
+    HMOut.simL
+      (HM.run EdgeIdx.hashCode EdgeIdx.equals policy (ops.map (HMOp.mapKey fun k => k.idx H)) (HM.new cap))
+      ((Assoc.run (fun k k' => sameSplit tips k.below k'.below) ops []).map (HMOut.mapKey fun k => k.idx H)) := by
+  rw [← new_map (fun (k : TreeKey tips) => k.idx H), hm_run_map]
+  apply simL_map
+  have hE : (fun (k k' : TreeKey tips) => sameSplit tips k.below k'.below) =
+      fun k k' => (k.idx H).equals (k'.idx H) := by
+    funext a b; exact (TreeKey.equals_eq H hn a b).symm
+  rw [hE]
+  exact hm_refines (tree_keys_lawful H tips hn) cap policy ops
+
+-- two trees with different tip orders (`exT`, `exTipRoot`): a branch of each as keys over `exT.tipNames`
+example : ∃ a b : TreeKey exT.tipNames, a.order = exT.tipNames ∧ b.order = exTipRoot.tipNames ∧
+    a.order ≠ b.order ∧ sameSplit exT.tipNames a.below b.below = true :=
+  ⟨⟨exT.tipNames, (exT.splits[0]).below, List.Perm.refl _, by decide⟩,
+   ⟨exTipRoot.tipNames, (exTipRoot.splits[1]).below, (List.isPerm_iff.mp (by decide)), by decide⟩,
+   rfl, rfl, by decide, by decide⟩
 
 /-- `IndexQuartets`: for every capacity (the code's 12 800 000 included) and rehash policy the map holds
     one entry per set of four taxa — first quartet met as key, last one as value (`specIndexQuartets`),
